@@ -14,8 +14,8 @@ Open Scope Z_scope.
 (* ---------- the code as it is: strict IsHash ---------- *)
 
 (* Every transaction that can reach updateState - sender id derived from a public key, uint64
-   amounts, contract destinations accepted by StateContext.AddTransfer (for signed transfers a
-   premise about the contract, see C01_signed_destination_residue) - conserves the supply: every
+   amounts, destinations of queued transfers accepted by StateContext.AddTransfer (which refuses
+   the others; signed transfers are unrestricted) - conserves the supply: every
    state with canonical leaves, every transaction type, value, fee and nonce, every contract
    oracle result (success with arbitrary writes / queued / signed transfers from ANY source,
    chargeable failure, internal failure), any Send destination whatsoever. *)
@@ -55,16 +55,22 @@ Theorem C01_uppercase_destination_rejected :
 Proof. exact cs_c01_uppercase_send_rejected. Qed.
 Print Assumptions C01_uppercase_destination_rejected.
 
-(* What is left outside: StateContext.AddSignedTransfer does not check the destination, so the
-   premise of [cs_accepted] on signed transfers is not enforced by the chain.  Witness: with the
-   strict IsHash a contract that signs 100 out of account 3 to the upper-case spelling of account
-   4's id still shrinks the supply 2000 -> 1900. *)
-Theorem C01_signed_destination_residue :
+(* Signed transfers: updateState checks their destinations itself (repaired, 7b388a6): a call that
+   signed a transfer to an id the strict IsHash refuses fails the whole transaction. *)
+Theorem C01_signed_noncanonical_destination_rejected :
+  forall cfg st round tx ws trs signed evs out,
+    cfg_strict_ids cfg = true -> tx_type tx = TSC ->
+    Exists (fun t => ~ cs_canon_id (tr_to t)) signed ->
+    cs_is_applied (cs_update_state cfg st round tx (SCOk ws trs signed evs out)) = false /\
+    cs_post st (cs_update_state cfg st round tx (SCOk ws trs signed evs out)) = st.
+Proof. exact cs_c01_signed_noncanonical_rejected. Qed.
+Print Assumptions C01_signed_noncanonical_destination_rejected.
+
+Example C01_signed_example :
   let tx := {| tx_hash := 0; tx_type := TSC; tx_from := 3; tx_to := 1; tx_value := 0; tx_fee := 0; tx_nonce := 1 |} in
   let r := SCOk [] [] [Build_cs_transfer 3 (cs_upper_base + 4) 100] [] 0 in
-  cs_total (st_accts (cs_post cs_c01_witness_state (cs_update_state cs_c01_strict_cfg cs_c01_witness_state 7 tx r))) = 1900.
-Proof. exact cs_c01_signed_residue. Qed.
-Print Assumptions C01_signed_destination_residue.
+  cs_update_state cs_c01_strict_cfg cs_c01_witness_state 7 tx r = Rejected ErrBadTo.
+Proof. exact cs_c01_signed_example. Qed.
 
 (* ---------- configuration-independent facts and the repaired defect ---------- *)
 
